@@ -175,7 +175,7 @@ class SendProxy(object):
 
 
 class Traced(object):
-    __slots__ = ("trace", "stamps", "outcome", "exc", "ready_left", "horizon_hit", "interrupted", "nrec", "parents")
+    __slots__ = ("trace", "stamps", "outcome", "exc", "ready_left", "horizon_hit", "interrupted", "nrec", "parents", "held")
 
     def __init__(self):
         self.trace = []          # ("tick", k, stamp) markers, ("interrupt", k) and send dicts, in order
@@ -187,6 +187,7 @@ class Traced(object):
         self.interrupted = None
         self.nrec = 0
         self.parents = {}        # (framer, frame) -> name of the frame it is nested in (static program structure)
+        self.held = {}           # (framer, frame) -> names of the auxiliary framers that frame holds
 
 
 def run_traced(house, events, tick=0.125, horizon=40, stamp=0.0, interrupt_at=None, interrupt_exc=None, limit=20.0,
